@@ -566,6 +566,29 @@ def gen_odt(rng, o=None):
     raise RuntimeError("no valid day found")
 
 
+def same_fields_other_calendar(rng, x):
+    """an odt whose date has the same year/month/day NUMBERS as x's date but in another calendar system"""
+    P = _P()
+    d = mk_date(x[0], x[3])
+    for _ in range(6):
+        o2 = rng.choice(CAL_ORDS)
+        if o2 == x[0]:
+            continue
+        c2 = cal_of(o2)
+        try:
+            d2 = P.LocalDate(d.year, d.month, d.day, c2)
+        except Exception:  # noqa: BLE001  (fields not valid in that calendar)
+            continue
+        dd = d2._days_since_epoch
+        if not day_ok(o2, dd):
+            continue
+        r = rng.random()
+        nod = x[4] if r < 0.4 else gen_nod(rng)
+        off = x[5] if r < 0.7 else gen_off(rng)
+        return [o2, c2._min_days, c2._max_days, dd, nod, off]
+    return None
+
+
 def gen_dur_for(rng, x):
     """a duration that moves odt x across 0, 1, 2 local day boundaries, to the range ends, or far away"""
     loc = x[3] * NPD + x[4]
@@ -660,6 +683,13 @@ def gen_plain_ops(ctx, n):
                     y = y[:3] + [d2, n2, y[5]]
             ops.append(J(rng.choice(["odt.sub", "odt.sub", "zdt.sub"]), x, y))
             ops.append(J("odt.eq", x, y if rng.random() < 0.5 else x))
+            # the same raw (year, month, day) numbers in ANOTHER calendar (a different physical day), same or other
+            # offset and time: a shortcut that compares packed fields without the calendar shows up here
+            tw = same_fields_other_calendar(rng, x)
+            if tw is not None:
+                ops.append(J("odt.sub", x, tw))
+                ops.append(J("odt.sub", tw, x))
+                ops.append(J("odt.eq", x, tw))
         elif k < 0.94:
             ops.append(J("odate.at", c3, x[3], x[5], x[4]))
             ops.append(J("odt.todate", x))
